@@ -344,6 +344,14 @@ func buildInputs(uniq string, r *rand.Rand, thorough bool) []Input {
 	add(Input{Name: "grpc CompleteTask:all-zero", Send: func(s *Server) InReply { return grpcIn(s.Tasks().CompleteTask(ctx(), &pb.CompleteTaskRequest{})) }})
 	add(Input{Name: "grpc HeartbeatTasks:all-zero", Send: func(s *Server) InReply { return grpcIn(s.Tasks().HeartbeatTasks(ctx(), &pb.HeartbeatTasksRequest{})) }})
 	add(Input{Name: "grpc HeartbeatLocks:all-zero", Send: func(s *Server) InReply { return grpcIn(s.Locks().HeartbeatLocks(ctx(), &pb.HeartbeatLocksRequest{})) }})
+	// create-with-task for a promise no source routes: refused (recv not found), in both protocols
+	add(Input{Name: "POST /promises/task:unrouted", Send: func(s *Server) InReply {
+		rp := s.JSON("POST", "/promises/task", nil, map[string]any{"promise": map[string]any{"id": "unrouted-" + gid, "timeout": soon() + 100000}, "task": map[string]any{"processId": "p", "ttl": 1000}})
+		return InReply{Proto: "http", Err: rp.Err, Status: rp.Status, Body: clipName(string(rp.Body))}
+	}})
+	add(Input{Name: "grpc CreatePromiseAndTask:unrouted", Send: func(s *Server) InReply {
+		return grpcIn(s.Promises().CreatePromiseAndTask(ctx(), &pb.CreatePromiseAndTaskRequest{Promise: &pb.CreatePromiseRequest{Id: "unrouted-g-" + gid, Timeout: soon() + 100000}, Task: &pb.CreatePromiseTaskRequest{ProcessId: "p", Ttl: 1000}}))
+	}})
 	// ---- family E: sequences of individually legal requests whose combination is the hostile input
 	post := func(s *Server, path string, body map[string]any) HTTPReply { return s.JSON("POST", path, nil, body) }
 	// derived registration ids are plain concatenations: root "a" + leaf "b:c" and root "a:b" + leaf "c" share "__resume:a:b:c"
